@@ -29,6 +29,7 @@ func genC03(r *core.Rng, id int) *c03Case {
 	oo := gen.DefaultOpOpts()
 	oo.MaxOps = 4
 	oo.MaxFrags = 5
+	oo.BareInline = true // `... { f }` and `... @include(if: $v) { f }`: no type condition to add or to drop
 	d := gen.RandomDoc(r, s, oo)
 	if id%3 == 1 {
 		if dd := gen.FragDagDoc(r, s); dd != nil {
